@@ -148,6 +148,10 @@ BodiesK == {Bn(">", K, NumA("0")), Bn("=", K, Own("x")), Bn("<", K, Fld(VarR("@A
             Un("not", Bn("implies", Fld(VarR("@A"), "b"), Bn(">", K, NumA("0")))),
             Un("not", Bn("implies", Bn("<", K, Fld(VarR("@A"), "n")), Own("p"))),
             Bn("implies", Bn(">", K, NumA("0")), Bn(">", Fld(VarR("@A"), "n"), K)),
+            \* a literal False deep inside a conjunct that does not mention the variable (the quantifier is still true on an empty domain)
+            Bn("and", Bn(">", K, NumA("0")), Bn("and", Own("p"), BoolA("False"))),
+            Bn("and", Bn("and", BoolA("False"), Own("p")), Bn(">", K, NumA("0"))),
+            Bn("and", Bn(">", K, NumA("0")), BoolA("False")),
             \* chains of three conjuncts: two depend on the variable (one of them on the alias), one does not
             Bn("and", Bn("and", Bn(">", K, NumA("0")), Bn("<", K, Fld(VarR("@A"), "n"))), Own("p")),
             Bn("and", Own("p"), Bn("and", Bn(">", K, NumA("0")), Bn("<", K, Fld(VarR("@A"), "n")))),
